@@ -48,25 +48,28 @@ Theorem C12_intersection_order_free :
 Proof. exact inter_all_perm. Qed.
 Print Assumptions C12_intersection_order_free.
 
-(* the dominator work-list (a site of class 'fixpoint': todo.extend(succs_table[n]) pushes the successors
-   in the iteration order of a set): for ALL graphs, two runs that enumerate the same successor sets in
-   ANY two orders both return and give the same dominator set for every node.  Proved over the
+(* the dominator work-list (two sites of class 'fixpoint': todo.extend(succs_table[n]) pushes the successors
+   in the iteration order of a set, `for e in entries` seeds the table in the iteration order of a set): for
+   ALL graphs, two runs that enumerate the same successor sets and the same entry points in ANY two orders
+   both return and give the same dominator set for every node.  Proved over the
    line-by-line model Model/DomWl.v (tied to the code by the C13 check). *)
 From V Require Import Model.DomWl Model.DomWlProof.
 Theorem C12_dominators_order_free :
-  forall nodes preds succs1 succs2 B1 B2 fuel1 fuel2,
+  forall nodes preds succs1 succs2 ents1 ents2 B1 B2 fuel1 fuel2,
     NoDup nodes ->
     (forall n, In n nodes -> incl (preds n) nodes) ->
     (forall n, In n nodes -> incl (succs1 n) nodes) ->
     (forall n p, In n nodes -> In p nodes -> (In p (preds n) <-> In n (succs1 p))) ->
     (forall x y, In y (succs1 x) <-> In y (succs2 x)) ->
+    (forall n, In n ents1 <-> In n nodes /\ preds n = []) ->
+    (forall n, In n ents2 <-> In n nodes /\ preds n = []) ->
     (forall n, (List.length (succs1 n) <= B1)%nat) -> (forall n, (List.length (succs2 n) <= B2)%nat) ->
-    entries nodes preds <> [] ->
-    (mu nodes B1 (init_D nodes (entries nodes preds)) (init_stk nodes (entries nodes preds)) < fuel1)%nat ->
-    (mu nodes B2 (init_D nodes (entries nodes preds)) (init_stk nodes (entries nodes preds)) < fuel2)%nat ->
+    ents1 <> [] ->
+    (mu nodes B1 (init_D nodes ents1) (init_stk nodes ents1) < fuel1)%nat ->
+    (mu nodes B2 (init_D nodes ents2) (init_stk nodes ents2) < fuel2)%nat ->
     exists D1 l1 D2 l2,
-      find_dominators nodes (entries nodes preds) preds succs1 fuel1 = WOk D1 l1 /\
-      find_dominators nodes (entries nodes preds) preds succs2 fuel2 = WOk D2 l2 /\
+      find_dominators nodes ents1 preds succs1 fuel1 = WOk D1 l1 /\
+      find_dominators nodes ents2 preds succs2 fuel2 = WOk D2 l2 /\
       forall m, In m nodes -> dget D1 m = dget D2 m.
 Proof. exact find_dominators_order_independent. Qed.
 Print Assumptions C12_dominators_order_free.
